@@ -57,4 +57,7 @@ theorem holds_next_listener_gets_own_stream (tokenPending : Bool) (closed next :
 theorem holds_one_slot_per_id (together : Bool) : Hygiene.slotsAfterRendezvous Facts.hygiene together = 1 :=
   Props.Hygiene.one_slot_per_id _ (by decide) together
 
+theorem holds_muxer_lock_free_after_knocks (knocks : Nat) : GrpcMux.muxerLockFree Facts.grpcMuxClientClose knocks = true :=
+  Props.C09.muxer_lock_free_after_knocks _ (by decide) knocks
+
 end GoPlugin.Instance.C09
